@@ -494,6 +494,75 @@ pub fn run(ctx: &Ctx, rep: &mut Report) {
             }
         }
     }
+    // ---- 3. replace routines on UTF-8 haystacks with byte patterns that split
+    // code points (must skip such matches, never panic, stay valid UTF-8)
+    let nrepl = match stage {
+        "miri" => 6,
+        "asan" => ctx.tier.pick(20, 2000, 20_000),
+        _ => ctx.tier.pick(20, 6000, 200_000),
+    };
+    for i in 0..nrepl {
+        let mut rng = root.fork(0x2000_0000 + i as u64);
+        let c = crate::meta::gen_repl_case(&mut rng);
+        if miri && c.pats.iter().map(|p| p.len()).sum::<usize>() > 24 {
+            continue;
+        }
+        let s = match guard(|| c.cfg.build(&c.pats)) {
+            Ok(Ok(s)) => s,
+            _ => continue,
+        };
+        let cj = if cfg!(miri) {
+            J::Null
+        } else {
+            J::obj()
+                .with("what", J::s("replace"))
+                .with("patterns", pats_json(&c.pats))
+                .with("cfg", c.cfg.to_json())
+                .with("haystack", J::Str(hex(c.hay.as_bytes())))
+                .with("span", J::Arr(vec![J::i(0), J::i(c.hay.len())]))
+        };
+        announce(&cj);
+        let r = guard(|| -> Option<String> {
+            macro_rules! on {
+                ($a:ident => $e:expr) => {
+                    match &s {
+                        S::Top($a) => $e,
+                        S::N($a) => $e,
+                        S::C($a) => $e,
+                        S::D($a) => $e,
+                    }
+                };
+            }
+            use aho_corasick::automaton::Automaton;
+            let out = on!(a => a.try_replace_all(&c.hay, &c.repl));
+            if let Ok(o) = &out {
+                if std::str::from_utf8(o.as_bytes()).is_err() {
+                    return Some("replace_all produced invalid UTF-8".into());
+                }
+            }
+            let mut dst = String::new();
+            let _ = on!(a => a.try_replace_all_with(&c.hay, &mut dst, |_, t, d| { d.push_str(t); true }));
+            if dst != c.hay && !c.pats.iter().any(|p| p.is_empty()) {
+                // replacing every match by its own text must reproduce the haystack
+                return Some(format!("identity replacement changed the haystack: {:?} -> {:?}", c.hay, dst));
+            }
+            let _ = on!(a => a.try_replace_all_bytes(c.hay.as_bytes(), &c.repl));
+            let mut dstb = vec![];
+            let _ = on!(a => a.try_replace_all_with_bytes(c.hay.as_bytes(), &mut dstb, |_, t, d| { d.extend_from_slice(t); true }));
+            if dstb != c.hay.as_bytes() {
+                return Some("identity byte replacement changed the haystack".into());
+            }
+            None
+        });
+        rep.eval();
+        rep.tally(&format!("{}_replace_apis", if stage == "guard" { "guard" } else if miri { "miri_box" } else { "exact_box" }));
+        let cj = if cfg!(miri) { J::obj().with("what", J::s("replace")).with("patterns", pats_json(&c.pats)).with("cfg", c.cfg.to_json()).with("haystack", J::Str(hex(c.hay.as_bytes()))) } else { cj };
+        match r {
+            Err(p) => rep.violation(&format!("panic:replace:{}", c.cfg.kind.name()), format!("a replace routine panicked on a valid UTF-8 haystack: {}", p), cj),
+            Ok(Some(d)) => rep.violation("bounds:replace", d, cj),
+            Ok(None) => {}
+        }
+    }
     // distinct accounting: every (stage, shard, case index) is distinct by construction;
     // count conservatively the number of searcher/haystack/span combinations
     let mut h = Fnv::new();
@@ -536,6 +605,25 @@ pub fn replay(case: &J, rep: &mut Report) -> Result<(), String> {
             with_placements("guard", &mut gb, &hay, &mut |h, pl| {
                 exercise_ac(rep, &pats, &cfg, &s, &variant, h, span, pl)
             });
+        }
+        "replace" => {
+            let cfg = Cfg::from_json(case.get("cfg").ok_or("cfg")?)?;
+            let s = cfg.build(&pats)?;
+            let text = String::from_utf8(hay.clone()).map_err(|e| e.to_string())?;
+            let repl: Vec<String> = (0..pats.len()).map(|i| format!("[{}]", i)).collect();
+            let r = guard(|| {
+                use aho_corasick::automaton::Automaton;
+                match &s {
+                    S::Top(a) => a.try_replace_all(&text, &repl).map(|_| ()).map_err(|e| e.to_string()),
+                    S::N(a) => a.try_replace_all(&text, &repl).map(|_| ()).map_err(|e| e.to_string()),
+                    S::C(a) => a.try_replace_all(&text, &repl).map(|_| ()).map_err(|e| e.to_string()),
+                    S::D(a) => a.try_replace_all(&text, &repl).map(|_| ()).map_err(|e| e.to_string()),
+                }
+            });
+            rep.eval();
+            if let Err(p) = r {
+                rep.violation("panic:replace:replay", format!("a replace routine panicked: {}", p), case.clone());
+            }
         }
         _ => return Err("unknown C15 case".into()),
     }
